@@ -151,12 +151,14 @@ Example c16_ex_ctor : slice_ctor (LimSeq [PQ (-(1)); PQ 0; PQ 0]) (PQ (1 # 2)) =
   biased_ctor (PQ 3) (AxStr [122%nat]) = Accept /\ yx_ctor (PQ 0) = Accept /\ yx_ctor PNaN = RaiseValue.
 Proof. repeat split; reflexivity. Qed.
 
-(* known defect F2 reproduced bit for bit by the binary64 model (ErrorModels/DistFloat.v): the exact theorem
-   c16_simplex_biased holds, the float evaluation at bias 0.001, p = 1 returns Pr(I) = -2^-52 *)
+(* defect F2 (repaired in /repo by 570530b) reproduced bit for bit by the binary64 model of the old formula: the
+   exact theorem c16_simplex_biased holds, yet the float evaluation at bias 0.001, p = 1 returned Pr(I) = -2^-52;
+   the repaired formula returns 0 *)
 Example c16_ex_F2_binary64 :
-  feq4 (biasedF 0x1.0624dd2f1a9fcp-10 AY 1)
+  feq4 (biasedF_before_fix 0x1.0624dd2f1a9fcp-10 AY 1)
        ((-0x1p-52)%float, 0x1.ff7d0f16c2e0ap-2, 0x1.05e1d27a3ee9dp-10, 0x1.ff7d0f16c2e0ap-2)%float = true
-  /\ negI (biasedF 0x1.0624dd2f1a9fcp-10 AY 1) = true.
+  /\ negI (biasedF_before_fix 0x1.0624dd2f1a9fcp-10 AY 1) = true
+  /\ negI (biasedF 0x1.0624dd2f1a9fcp-10 AY 1) = false.
 Proof. exact F2_reproduced. Qed.
 
 Print Assumptions c16_simplex_depolarizing. Print Assumptions c16_pi_depolarizing. Print Assumptions c16_depolarizing_thirds.
